@@ -132,6 +132,10 @@ def hist_job(e, p):
     adf2, ra2, bdd2 = A.make_adf(e, tabs, n)
     fresh = do_call(e, final, adf2, ra2, bdd2, n)
     if canary: fresh = list(fresh) + ['canary']
+    if final in ('grounded', 'complete', 'stable', 'stable_with_prefilter', 'heu_a', 'heu_b') or final.startswith(('nogood', 'twoval')):
+        wrong = semjobs.answer_mismatch(e, p['fam'], tabs, n, final, got)
+        if wrong is not None:
+            report(e, 'history-dependent', what='%s after %s = %s, the definition gives %s' % (final, hist, got, wrong[2]), case=case(wrong[0]), observed=got, expected=wrong[2], oracle=True)
     if sorted(map(str, got)) != sorted(map(str, fresh)):
         m = sat_model(e, True)
         report(e, 'history-dependent', what='%s after %s = %s, on a fresh object = %s' % (final, hist, got, fresh), case=case(m), observed=got, expected=fresh)
@@ -140,6 +144,17 @@ def hist_job(e, p):
 # ------------------------------------------------------------------ native side
 
 def native_cmd(case): return dict(case, cmd='adf_history')
+
+def oracle_problems(out, case):
+    """the native answer of a semantics procedure judged against the definition (python oracle on the concrete tables)"""
+    fin = case['final']
+    if not (fin in ('grounded', 'complete', 'stable', 'stable_with_prefilter', 'heu_a', 'heu_b') or fin.startswith(('nogood', 'twoval'))): return []
+    if not isinstance(out.get('after'), list): return []
+    exp = semjobs.py_oracle(semjobs.oracle_kind(fin), case['tabs'], case['n'])
+    got = out['after']
+    if sorted(got) != sorted(exp): return ['%s answers %s, the definition gives %s' % (fin, got, exp)]
+    return []
+
 
 def judge(out):
     if 'after' not in out: return ['native run failed: %s' % str(out)[:200]]
@@ -151,7 +166,7 @@ def judge(out):
 
 def replay(ctx, v):
     out = ctx.native().call(native_cmd(v['case']), timeout=30)
-    probs = judge(out)
+    probs = judge(out) + oracle_problems(out, v['case'])
     if probs: return 'reproduced', {'native_output': out, 'problems': probs}
     if v['kind'] == 'memo-corrupt':
         # a corrupt memo entry is latent state: surface it natively through the public operation that consults exactly this entry
